@@ -2268,7 +2268,14 @@ func (d *decoderBincBytes) kChan(f *decFnInfo, rv reflect.Value) {
 		if !d.d.TryNil() {
 			d.decodeValueNoCheckNil(rv9, fn)
 		}
-		rv.Send(rv9)
+		if rvChanged {
+
+			if !rv.TrySend(rv9) {
+				halt.errorf("cannot decode more than %d values into a nil chan: pass a chan that has a receiver", any(rvlen))
+			}
+		} else {
+			rv.Send(rv9)
+		}
 	}
 	if isArray {
 		d.arrayEnd()
@@ -6396,7 +6403,14 @@ func (d *decoderBincIO) kChan(f *decFnInfo, rv reflect.Value) {
 		if !d.d.TryNil() {
 			d.decodeValueNoCheckNil(rv9, fn)
 		}
-		rv.Send(rv9)
+		if rvChanged {
+
+			if !rv.TrySend(rv9) {
+				halt.errorf("cannot decode more than %d values into a nil chan: pass a chan that has a receiver", any(rvlen))
+			}
+		} else {
+			rv.Send(rv9)
+		}
 	}
 	if isArray {
 		d.arrayEnd()
